@@ -270,7 +270,7 @@ theorem executeWithRetry_i : ⦃fun w => ⌜Inv a F w⌝⦄ executeWithRetry cfg
   mvcgen [executeWithRetry, h0, h1, h2, h3, h4]
   inv_close
 
-theorem noRetryLadder_i (e : Exn) : ⦃fun w => ⌜Inv a F w⌝⦄ noRetryLadder cfg e ⦃invPost a F⦄ := by
+theorem noRetryLadder_i (b : Bool) (e : Exn) : ⦃fun w => ⌜Inv a F w⌝⦄ noRetryLadder cfg b e ⦃invPost a F⦄ := by
   have h1 := recordCancel_i a F cfg
   have h3 := recordFailure_i a F cfg
   have h4 := noRetryEndHook_i a F cfg
